@@ -30,6 +30,21 @@ class Prop(common.PropertyCheck):
             yield {'k': 'reload', 'spec': fcsgen.gen_spec(rng, datatype=rng.choice(['I', 'F'])), 'edit': rng.choice(['col0', 'add1', 'zero', 'rewrite', 'rewrite'])}
         for i in range(self.budget(80, 800)):
             yield {'k': 'file', 'spec': fcsgen.gen_spec(rng, allow_malformed=True)}
+        # event records wider than 256 bytes on the mixed-width path; files without events whose offsets are given in TEXT only
+        wide = [[32] + [16] * 139, [24] * 90, [8, 24, 16, 40, 16, 32] * 12, [16] * 130 + [24], [64] * 33 + [8]]
+        for i, ws in enumerate(wide):
+            for big in (False, True):
+                N = 3
+                ev = [list(c) for c in zip(*[fcsgen.gen_values(rng, w, N) for w in ws])]
+                yield {'k': 'file', 'spec': {'version': 'FCS3.0', 'delim': '/', 'datatype': 'I', 'byteord': '4,3,2,1' if big else '1,2,3,4', 'widths': list(ws),
+                                             'ranges': [fcsgen.gen_range(rng, w)[0] for w in ws], 'events': ev, 'placement': ['header', 'text'][i % 2],
+                                             'text_offsets_too': True, 'end_conv': ['last', 'past'][i % 2], 'pad_text': 0, 'pad_data': 0, 'pad_after': i % 2, 'order': 'TDA'}}
+        for dt, ws in (('I', [16, 16]), ('I', [8, 24]), ('F', [32, 32]), ('D', [64])):
+            for ec in ('last', 'past'):
+                for pl in ('text', 'header'):
+                    yield {'k': 'file', 'spec': {'version': 'FCS3.1', 'delim': '|', 'datatype': dt, 'byteord': '1,2,3,4', 'widths': list(ws), 'ranges': [1024] * len(ws),
+                                                 'events': [], 'placement': pl, 'text_offsets_too': True, 'end_conv': ec, 'pad_text': 0, 'pad_data': 0,
+                                                 'pad_after': 1 if ec == 'past' else 0, 'order': 'TDA'}}
         # offsets in TEXT keywords padded with blanks (right-justified fixed-width fields, or trailing blanks) instead of zeros
         for i in range(self.budget(60, 600)):
             spec = fcsgen.gen_spec(rng, family=fcsgen.FAMILIES[i % 7])
